@@ -207,6 +207,9 @@ def run(c, facts):
     c.shared(R8, c08.r1_innermost, 'C08.R1', facts)
     c.shared(R8, c08.r2_pairing, 'C08.R2', facts)
     c.shared(R8, c08.r3_eager, 'C08.R3', facts)
+    c.shared(R8, c08.r14_same_winner, 'C08.R14', facts)
+    R10 = c.rule('C18.R10', 'FOLDERS: a rename is computed in every workspace folder whose program contains the document (shared with C17.R6)')
+    c.shared(R10, c17.r6_folders, 'C17.R6', facts)
     c.run(r6_prepare_target, facts)
     c.run(r4_qualifier_local, facts)
     c.run(lambda c: c08.r5_binder_kind(c, facts, rule='C18.R1', crates=('oal_client',)))
